@@ -7,7 +7,6 @@ import (
 	"time"
 
 	corev1 "k8s.io/api/core/v1"
-	"k8s.io/apimachinery/pkg/util/intstr"
 
 	v1 "github.com/DataDog/extendeddaemonset/api/v1alpha1"
 
@@ -804,10 +803,17 @@ func (m *Monitors) onEDS(inv *simapi.Invocation, out kit.Outcome) {
 			if oracle.RSCond(asRead, v1.ConditionTypeCanaryFailed) {
 				ctx.Count("C07.failed-rs-deletes-judged")
 				for _, cnd := range asRead.Status.Conditions {
-					if cnd.Type == v1.ConditionTypeCanaryFailed && now.Before(cnd.LastTransitionTime.Add(2*time.Minute)) {
+					if cnd.Type != v1.ConditionTypeCanaryFailed {
+						continue
+					}
+					// the first condition of the type is the replica set's Canary-Failed condition
+					// (`kubectl-eds canary fail` on an already failed replica set appends duplicates)
+					if now.Before(cnd.LastTransitionTime.Add(2 * time.Minute)) {
 						d["failed-since"] = cnd.LastTransitionTime.UTC().Format(time.RFC3339)
+						d["conditions"] = fmt.Sprintf("%+v", asRead.Status.Conditions)
 						m.viol("C07", "C07.retention", nil, inv, d)
 					}
+					break
 				}
 			}
 		case c.Verb == "status-update" && c.Kind == simapi.KindEDS:
@@ -898,8 +904,13 @@ func (m *Monitors) onEDS(inv *simapi.Invocation, out kit.Outcome) {
 					targeted++
 				}
 			}
+			if d := int(v.EDS.Status.Desired); d > targeted {
+				targeted = d // the count the controller itself last published for its targeted nodes
+			}
 			want, ok := kit.Resolve(v.EDS.Spec.Strategy.Canary.Replicas, targeted)
-			if ok && len(written.Status.Canary.Nodes) > want && v.EDS.Spec.Strategy.Canary.Replicas.Type == intstr.Int {
+			// percent replicas: the base "nodes the ExtendedDaemonSet targets" is taken generously (all
+			// currently eligible nodes), so only a list that exceeds even that resolution is judged
+			if ok && len(written.Status.Canary.Nodes) > want {
 				m.viol("C04", "C04.list-size", nil, inv, map[string]any{"nodes": written.Status.Canary.Nodes, "replicas": want})
 			}
 		}
